@@ -339,6 +339,10 @@ func runBatch(s *sut.SUT, f Flags, variant int, lines [][]byte) ([]LineOut, bool
 	if useOut {
 		args = append(args, "-o", outp)
 	}
+	if f.Z != "" && !strings.ContainsAny(f.Z, "/\x00") && len(f.Z) < 200 && variant%3 != 1 {
+		// the working directory may hold anything, also a file that happens to be named like the pattern text
+		os.WriteFile(filepath.Join(dir, f.Z), []byte("tok_live_51Hq8\n# not a pattern\n^nomatchatall$\n"), 0o644)
+	}
 	var env []string
 	if variant%5 == 2 {
 		// what an image, a compose file or a CI job may have exported: variables named after the switches,
